@@ -227,6 +227,7 @@ def run(prop, tier, seed, work, replay, t0):
         "known_findings_seen": sorted({k for k, _, _ in known_hits}),
         "exhaustive": bool(getattr(mod, "EXHAUSTIVE", {}).get(tier, False)),
         "ladim_origin": origin,
+        "anchor_sources_sha256": anchor_hashes(prop, origin),
     }
     if coqchk is not None:
         cov["coqchk"] = coqchk.get("summary")
@@ -238,6 +239,24 @@ def run(prop, tier, seed, work, replay, t0):
           f"{len(nontriv)} distinct non-trivial); corr failures {len(corr_fail_cases)}; oracle failures {len(violations)}; "
           f"{time.time() - t0:.1f}s; exit {exit_code}")
     return exit_code
+
+
+def anchor_hashes(prop, origin):
+    """sha256 of the source files the property is anchored in, as imported by this run (informational)"""
+    import hashlib
+
+    out = {}
+    try:
+        root = Path(origin).parent.parent
+        for line in (VERIF / "properties.jsonl").read_text().splitlines():
+            d = json.loads(line)
+            if d["id"] == prop:
+                for f in d["anchors"]["files"]:
+                    q = root / f
+                    out[f] = hashlib.sha256(q.read_bytes()).hexdigest()[:16] if q.exists() else "missing"
+    except Exception as e:  # noqa: BLE001
+        out["error"] = str(e)
+    return out
 
 
 def coqbridge_coqchk(prop_file):
